@@ -112,7 +112,8 @@ func runC06(c *Ctx) {
 
 	// (nullpages) + (final)
 	rule = "C06.nullpages"
-	for _, searchFn := range []string{"binarySearch", "linearSearch"} {
+	for _, searchFn := range []string{"linearSearch", "binarySearch"} {
+		rule = "C06.nullpages"
 		obj := p.LookupFunc(searchFn)
 		if !c.Anchor(rule, searchFn, obj != nil) {
 			continue
@@ -148,6 +149,9 @@ func runC06(c *Ctx) {
 			})
 		}
 		c.Min(rule, 2)
+		if searchFn != "binarySearch" {
+			continue // the post-loop containment test below is specific to the bisection
+		}
 
 		rule = "C06.final"
 		np := map[ssa.Value]bool{}
